@@ -7,6 +7,8 @@ import (
 	sdkmath "cosmossdk.io/math"
 	sdk "github.com/cosmos/cosmos-sdk/types"
 	authtypes "github.com/cosmos/cosmos-sdk/x/auth/types"
+	aptypes "github.com/elys-network/elys/x/assetprofile/types"
+	ctypes "github.com/elys-network/elys/x/commitment/types"
 	sskeeper "github.com/elys-network/elys/x/stablestake/keeper"
 	sstypes "github.com/elys-network/elys/x/stablestake/types"
 	vrf "github.com/elys-network/elys/zzvrf"
@@ -172,3 +174,59 @@ func H_BeginBlocker() {
 }
 
 var _ = sskeeper.NewMsgServerImpl
+
+// ---- deposits and withdrawals: cash and TotalValue move together ----
+
+func lenders(s *state) sdkmath.Int {
+	env, ctx := s.env, s.env.Ctx
+	share := sstypes.GetShareDenom()
+	supply := vrf.Int("shareSupply")
+	vrf.Assume(supply.IsPositive())
+	env.Comm.SetParams(ctx, ctypes.DefaultParams())
+	env.Aprof.SetEntry(ctx, aptypes.Entry{BaseDenom: share, Denom: share, Decimals: 6, CommitEnabled: true, WithdrawEnabled: true})
+	env.W.Supply[share] = supply
+	env.W.SetBal(authtypes.NewModuleAddress(ctypes.ModuleName), share, supply)
+	c := env.Comm.GetCommitments(ctx, bob)
+	c.AddCommittedTokens(share, supply, 0)
+	env.Comm.SetCommitments(ctx, c)
+	return supply
+}
+
+// Bond at any redemption rate (TotalValue and share supply independent): the vault equation survives
+//
+//vrf:cover bond-ok
+//vrf:bound symbolic vault (TotalValue, cash, remainder of debts, share supply: any redemption rate), one bond of a symbolic amount through the real message server
+func H_Bond() {
+	s := setup(false, 0)
+	lenders(s)
+	amt := vrf.Int("amt")
+	vrf.Assume(amt.IsPositive())
+	s.env.W.SetBal(alice, usdc, amt)
+	srv := sskeeper.NewMsgServerImpl(*s.env.Stable)
+	if _, err := srv.Bond(s.env.Ctx, &sstypes.MsgBond{Creator: alice.String(), Amount: amt}); err != nil {
+		return
+	}
+	vrf.Cover("bond-ok")
+	vrf.Assert(s.env.W.BalOf(modAddr, usdc).Equal(s.cash.Add(amt)), "C06 bond: the vault's cash grows by exactly the deposit")
+	s.check("bond")
+}
+
+// Unbond at any redemption rate
+//
+//vrf:cover unbond-ok
+//vrf:bound as H_Bond; one unbond of a symbolic share amount by the holder of all shares
+func H_Unbond() {
+	s := setup(false, 0)
+	supply := lenders(s)
+	x := vrf.Int("unbondShares")
+	vrf.Assume(x.IsPositive())
+	vrf.Assume(x.LTE(supply))
+	srv := sskeeper.NewMsgServerImpl(*s.env.Stable)
+	if _, err := srv.Unbond(s.env.Ctx, &sstypes.MsgUnbond{Creator: bob.String(), Amount: x}); err != nil {
+		return
+	}
+	vrf.Cover("unbond-ok")
+	paid := s.env.W.BalOf(bob, usdc)
+	vrf.Assert(s.env.W.BalOf(modAddr, usdc).Equal(s.cash.Sub(paid)), "C06 unbond: the vault's cash shrinks by exactly what is paid out")
+	s.check("unbond")
+}
